@@ -31,6 +31,14 @@ Definition queue_ok (h : Z) (q marks : list (Z * Z)) (cs : list (Z * cobs)) : bo
   && forallb (fun '(eh, id) => (h <=? eh) && has id cs && eqb (get id marks) (Some eh)) q
   && forallb (fun '(id, eh) => ememb (eh, id) q) marks.
 
+(** clause 42 *)
+Definition shyg (o : sobs) : bool :=
+  let h := so_height o in
+  queue_ok h (so_nq o) (so_nmark o) (so_ctxs o)
+  && queue_ok h (so_xq o) (so_xmark o) (so_ctxs o)
+  && forallb (fun '(id, _) => negb (has id (so_xmark o))) (so_nmark o)
+  && forallb (fun '(id, ((st, _, _), _, _)) => negb (st =? 0) || has id (so_nmark o) || has id (so_xmark o)) (so_ctxs o).
+
 (** C13 on the observations ([prev] = observation before the step):
     41 the end-blocker aborted;
     42 hygiene: duplicate entry, an entry behind the current height (never handled), an entry
@@ -44,10 +52,7 @@ Definition sprop (prev : sobs) (op_ : op) (o : sobs) : Z :=
   let h := so_height o in
   first_bad [
     (41, match op_ with EndBlock _ => negb (so_code o =? 2) | _ => true end);
-    (42, queue_ok h (so_nq o) (so_nmark o) (so_ctxs o)
-         && queue_ok h (so_xq o) (so_xmark o) (so_ctxs o)
-         && forallb (fun '(id, _) => negb (has id (so_xmark o))) (so_nmark o)
-         && forallb (fun '(id, ((st, _, _), _, _)) => negb (st =? 0) || has id (so_nmark o) || has id (so_xmark o)) (so_ctxs o));
+    (42, shyg o);
     (43, match op_ with
          | EndBlock _ =>
              (so_code o =? 2)
